@@ -11,13 +11,14 @@ import c05
 import c03
 import c06
 import c12
+import c13
 import ensemble as ens
 
 PID = "C02"
 
 
 def translate():
-    c04.translate(); c12.translate(); c09.translate(); c11.translate(); c05.translate(); c03.translate(); c06.translate()
+    c04.translate(); c12.translate(); c09.translate(); c11.translate(); c05.translate(); c03.translate(); c06.translate(); c13.translate()
 
 
 def validate(run, tier):
@@ -26,7 +27,8 @@ def validate(run, tier):
     (4 standard errors + 0.03)."""
     base = [dict(clustering=False), dict(clustering=True, sample="rwm", resample="syst")]
     # a tight volume-variation target makes the schedule wait at a temperature for several iterations (dynamic mode)
-    cells = [(c, 32, 24) for c in base] + [(c, 128, 192) for c in base] + [(dict(clustering=False, volume_variation=0.02), 64, 48)]
+    cells = [(c, 32, 24) for c in base] + [(c, 128, 192) for c in base] + [(dict(clustering=False, volume_variation=0.02), 64, 48)] \
+        + [(dict(clustering=False, pool_kind="scramble"), 64, 48)]     # a user pool whose workers finish out of order
     if tier != "quick":
         more = [dict(clustering=True), dict(clustering=False, sample="rwm"), dict(clustering=True, cluster_every=2),
                 dict(clustering=False, sample="rwm", resample="mult", volume_variation=0.5)]
@@ -47,6 +49,16 @@ def validate(run, tier):
         allowance = 0.10 if npart == 32 else (0.05 if npart == 64 else 0.03)
         if abs(e) > 4 * se + allowance:
             run.fail("evidence-biased", f"over {R} seeds with {npart} particles: mean log-evidence error {e:+.3f} (se {se:.3f})", **what)
+        if cfg.get("pool_kind"):
+            # the same seeds without the pool: how the likelihood is evaluated must not move the estimate (paired comparison)
+            ref = ens.run_ensemble("interior", {k_: v_ for k_, v_ in cfg.items() if k_ != "pool_kind"}, R, npart, 7000)
+            if all(r_["ok"] for r_ in ref) and len(ref) == len(res):
+                dl = np.array([a_["logz"] - b_["logz"] for a_, b_ in zip(res, ref)])
+                sd = float(np.std(dl) / math.sqrt(len(dl)))
+                run.extra["ensemble"][-1]["paired_diff_to_no_pool"] = [round(float(np.mean(dl)), 4), round(sd, 4)]
+                if abs(float(np.mean(dl))) > 4 * sd + 1e-9:
+                    run.fail("evidence-biased", f"over {R} seeds with {npart} particles: evaluating the likelihood through a user pool whose workers finish out "
+                             f"of order moves the mean log-evidence by {float(np.mean(dl)):+.3f} (se {sd:.3f}) against the same seeds without the pool", **what)
         # independence across seeds: distinct seeds must not replay the same run
         if len({round(v, 12) for v in lz}) < len(lz):
             run.fail("seeded-runs-replay", "two differently seeded runs returned the same evidence to 12 digits", **what)
@@ -199,7 +211,7 @@ def main(tier, seed):
     except Exception as e:  # fail closed: anything the translator cannot digest
         run.obligation("translate:all generated pieces used by C02", False, str(e))
     run.prove("Props/C02.v", link_rels=["Link/MIS.v", "Link/Posterior.v", "Link/Seeding.v"], allowed_axioms=STDLIB_AXIOMS_REALS)
-    run.prove("Props/C02W.v", link_rels=["Link/Warmup.v", "Link/Schedule.v", "Link/Kernel.v", "Link/Shift.v", "Link/Resample.v"], allowed_axioms=STDLIB_AXIOMS_REALS)
+    run.prove("Props/C02W.v", link_rels=["Link/Warmup.v", "Link/Schedule.v", "Link/Kernel.v", "Link/Shift.v", "Link/Resample.v", "Link/Dispatch.v"], allowed_axioms=STDLIB_AXIOMS_REALS)
     try:
         exact_history_evidence(run)
         validate(run, tier)
